@@ -37,6 +37,7 @@ Code details
 ~~~~~~~~~~~~
 """
 import copy
+import re
 from typing import Iterable
 
 import numpy as np
@@ -85,6 +86,27 @@ def numpy_to_blackbird(A, var_name):
     script.append("")
 
     return script
+
+
+def sympy_to_blackbird(expr):
+    """Converts a SymPy expression to a Blackbird expression, with every
+    free parameter enclosed in curly braces.
+
+    Args:
+        expr (sympy.Expr): expression containing free parameters
+
+    Returns:
+        str: the Blackbird expression
+    """
+    names = sorted(str(p) for p in expr.free_symbols)
+    if not names:
+        return str(expr)
+
+    # replace whole identifiers only, in a single pass, so that a parameter
+    # name that is contained in another name (or in an already substituted
+    # parameter) is never substituted twice
+    pattern = r"\b(" + "|".join(re.escape(n) for n in names) + r")\b"
+    return re.sub(pattern, r"{\1}", str(expr))
 
 
 class BlackbirdProgram:
@@ -408,11 +430,7 @@ class BlackbirdProgram:
 
                     elif isinstance(v, sym.Expr):
                         # argument contains free parameters
-                        res = str(v)
-                        for p in v.free_symbols:
-                            res = res.replace(str(p), "{"+str(p)+"}")
-
-                        args.append(res)
+                        args.append(sympy_to_blackbird(v))
 
                     else:
                         # anything that doesn't need to be dealt with as a special case,
